@@ -1,8 +1,920 @@
 /-
-C17 — `xonsh format` never changes what a program means, and is idempotent.  (stub, being written)
+C17 — `xonsh format` never changes what a program means, and is idempotent.
+
+PARTIAL (level "other").  What is a THEOREM here, over the model `Format` of xonsh/formatter/core.py
+(Model/Format.lean; rule tables and the tokenizer's operator tables TRANSLATED from the source on every run,
+Gen/FormatTables.lean), for ALL texts / token sequences / lexical contexts:
+
+  * `C17_finalize_idem`            `_finalize` is idempotent;
+  * `C17_finalize_token_safe`      when no token text has a blank before a newline or at its end, `_finalize`
+                                   edits separators only: every token text survives verbatim, in place;
+    `C17_finalize_token_safe_cex`  … and the hypothesis is needed: a multi-line string literal with a line that
+                                   ends in a blank is changed (the known defect `literal-trailing-blanks-stripped`);
+  * `C17_finalize_shape`, `C17_finalize_only_ws`   `_finalize` removes blanks at line ends and final newlines only;
+  * `C17_tokens_emitted`           the run loop emits every real token exactly once, in order, as its rendered text;
+  * `C17_seps_are_ws`, `C17_only_ws_changes`       everything else it emits is whitespace (separators copied from
+                                   the source: by hypothesis, checked on every real token stream): the output with
+                                   all whitespace removed IS the token texts with all whitespace removed;
+  * `C17_no_merge`                 a pair glued by a forced rule (after an opener, before a closer / `,` / `;` / `:`)
+                                   can never read back as something else — complete tables, `decide`d —
+    `C17_no_merge_cex_braces`, `C17_no_merge_cex_slice`   except the two real exceptions (`{ {` in an f-string field,
+                                   known finding `fstring-nested-braces-glued`; `: =` inside `[ ]`);
+  * `C17_space_stable`, `C17_continuation_stable`   outside macro bodies the spacing decision depends on the tokens,
+                                   the lexical context and "was there a gap": re-emitted text gets the same separators.
+
+What is NOT a theorem: that xonsh's tokenizer and parser (1600 lines of regex scanner, an LALR automaton with
+~600 actions) map "same token texts, separators only where no merge is possible" to "same syntax tree" — the step
+from these theorems to the property's main clause.  That step, and the property itself on the real code, are
+checked by the correspondence + oracle harness xv/props/c17.py (real tokenizer → this model vs the real
+`format_source`; xonsh's Parser on input and output; second pass; CLI path).
 -/
 import XonshVerif.Model.Format
 import XonshVerif.Gen.FormatTables
-open Format
 
-theorem C17_stub : finalize [] = ['\n'] := by decide
+namespace Format
+
+/-! ## finalize -/
+
+theorem noTrail_tail {c : Char} {cs : Str} (h : tokClean (c :: cs) = true) : tokClean cs = true := by
+  cases cs with
+  | nil => rfl
+  | cons d r => simp [tokClean] at h; exact h.2
+
+theorem stripTrailFrom_append (tail t rest : Str) :
+    stripTrailFrom tail (t ++ rest) = stripTrailFrom (stripTrailFrom tail rest) t := by
+  induction t with
+  | nil => rfl
+  | cons c cs ih => simp [stripTrailFrom, ih]
+
+theorem stripTrailFrom_cons (T : Str) (c : Char) (cs : Str) :
+    stripTrailFrom T (c :: cs) =
+      if isBlank c && (match stripTrailFrom T cs with | [] => true | d :: _ => decide (d = '\n')) then stripTrailFrom T cs
+      else c :: stripTrailFrom T cs := rfl
+
+/-- a clean text (no blank before a newline, none at the end) is copied, whatever follows -/
+theorem stripTrailFrom_clean (T t : Str) (h : tokClean t = true) : stripTrailFrom T t = t ++ T := by
+  induction t with
+  | nil => rfl
+  | cons c cs ih =>
+    cases cs with
+    | nil =>
+      simp [tokClean] at h
+      simp [stripTrailFrom, h]
+    | cons d r =>
+      have h2 := noTrail_tail h
+      simp [tokClean] at h
+      have e := ih h2
+      have hc : (isBlank c && decide (d = '\n')) = false := by
+        cases hb : isBlank c <;> simp [hb] at h ⊢
+        exact h.1
+      rw [stripTrailFrom_cons, e]
+      simp [hc]
+
+theorem stripTrail_clean (t : Str) (h : tokClean t = true) : stripTrail t = t := by
+  simpa [stripTrail] using stripTrailFrom_clean [] t h
+
+theorem stripTrail_is_clean (s : Str) : tokClean (stripTrail s) = true := by
+  induction s with
+  | nil => rfl
+  | cons c cs ih =>
+    simp only [stripTrail, stripTrailFrom] at ih ⊢
+    generalize stripTrailFrom [] cs = r at ih ⊢
+    cases r with
+    | nil =>
+      cases hb : isBlank c <;> simp [hb, tokClean]
+    | cons d r' =>
+      cases hb : isBlank c
+      · simp [hb, tokClean]; exact ih
+      · by_cases hd : d = '\n'
+        · simp [hb, hd]; simpa [hd] using ih
+        · simp [hb, hd, tokClean]; exact ih
+
+theorem C17_stripTrail_idem (s : Str) : stripTrail (stripTrail s) = stripTrail s :=
+  stripTrail_clean _ (stripTrail_is_clean s)
+
+theorem rstripNl_cons (c : Char) (cs : Str) :
+    rstripNl (c :: cs) = (match rstripNl cs with
+      | [] => if c = '\n' then [] else [c]
+      | r => c :: r) := rfl
+
+/-- `rstripNl` keeps the head of a non-empty result -/
+theorem rstripNl_head {cs : Str} {d : Char} {r : Str} (h : rstripNl cs = d :: r) : ∃ tl, cs = d :: tl := by
+  cases cs with
+  | nil => simp [rstripNl] at h
+  | cons c cs' =>
+    rw [rstripNl_cons] at h
+    cases hr : rstripNl cs' with
+    | nil =>
+      rw [hr] at h
+      by_cases hc : c = '\n'
+      · simp [hc] at h
+      · simp [hc] at h; exact ⟨cs', by rw [h.1]⟩
+    | cons x y =>
+      rw [hr] at h
+      simp at h
+      exact ⟨cs', by rw [h.1]⟩
+
+/-- an empty result means the text was newlines only -/
+theorem rstripNl_nil {cs : Str} (h : rstripNl cs = []) : cs = [] ∨ ∃ tl, cs = '\n' :: tl := by
+  cases cs with
+  | nil => exact Or.inl rfl
+  | cons c cs' =>
+    rw [rstripNl_cons] at h
+    cases hr : rstripNl cs' with
+    | nil =>
+      rw [hr] at h
+      by_cases hc : c = '\n'
+      · exact Or.inr ⟨cs', by rw [hc]⟩
+      · simp [hc] at h
+    | cons x y => rw [hr] at h; simp at h
+
+theorem rstripNl_append_nl (x : Str) : rstripNl (x ++ ['\n']) = rstripNl x := by
+  induction x with
+  | nil => rfl
+  | cons c cs ih => simp only [List.cons_append, rstripNl_cons, ih]
+
+theorem rstripNl_idem (x : Str) : rstripNl (rstripNl x) = rstripNl x := by
+  induction x with
+  | nil => rfl
+  | cons c cs ih =>
+    rw [rstripNl_cons]
+    cases hr : rstripNl cs with
+    | nil =>
+      by_cases hc : c = '\n'
+      · simp [hc, rstripNl]
+      · simp [hc, rstripNl]
+    | cons d r =>
+      simp only []
+      rw [rstripNl_cons, ← hr, ih, hr]
+
+/-- removing the final newlines of a clean text and adding one back gives a clean text -/
+theorem clean_rstripNl_nl (A : Str) (h : tokClean A = true) : tokClean (rstripNl A ++ ['\n']) = true := by
+  induction A with
+  | nil => decide
+  | cons c cs ih =>
+    have h2 := noTrail_tail h
+    have ih := ih h2
+    rw [rstripNl_cons]
+    cases hr : rstripNl cs with
+    | nil =>
+      -- c is followed by newlines only (or nothing): it is not a blank
+      have hnb : isBlank c = false := by
+        rcases rstripNl_nil hr with rfl | ⟨tl, rfl⟩
+        · simpa [tokClean] using h
+        · simp [tokClean] at h
+          cases hb : isBlank c <;> simp [hb] at h ⊢
+      by_cases hc : c = '\n'
+      · simp [hc]; decide
+      · simp [hc, tokClean, hnb]; decide
+    | cons d r =>
+      obtain ⟨tl, rfl⟩ := rstripNl_head hr
+      simp only [List.cons_append]
+      rw [hr] at ih
+      simp [tokClean] at h
+      simp only [List.cons_append] at ih
+      simp [tokClean, ih]
+      exact h.1
+
+/-- C17: `_finalize` is idempotent, for every text. -/
+theorem C17_finalize_idem (s : Str) : finalize (finalize s) = finalize s := by
+  unfold finalize
+  have hc : tokClean (rstripNl (stripTrail s) ++ ['\n']) = true :=
+    clean_rstripNl_nl _ (stripTrail_is_clean s)
+  rw [stripTrail_clean _ hc, rstripNl_append_nl, rstripNl_idem]
+
+example : finalize "a  \n\tb \n\n\n".toList = "a\n\tb\n".toList := by decide
+example : finalize [] = ['\n'] := by decide
+
+/-- "what follows is a line end or the end of the text" -/
+def atEol (T : Str) : Bool := match T with | [] => true | d :: _ => decide (d = '\n')
+
+theorem stripSepFrom_spec (T t : Str) :
+    (stripSepFrom (atEol T) t).1 ++ T = stripTrailFrom T t ∧
+    (stripSepFrom (atEol T) t).2 = atEol (stripTrailFrom T t) := by
+  induction t with
+  | nil => simp [stripSepFrom, stripTrailFrom]
+  | cons c cs ih =>
+    obtain ⟨ih1, ih2⟩ := ih
+    rw [stripTrailFrom_cons]
+    simp only [stripSepFrom]
+    generalize hq : stripSepFrom (atEol T) cs = q at ih1 ih2
+    obtain ⟨r, e⟩ := q
+    simp only at ih1 ih2
+    have hm : (match stripTrailFrom T cs with | [] => true | d :: _ => decide (d = '\n')) = atEol (stripTrailFrom T cs) := rfl
+    rw [hm, ← ih2]
+    cases hb : (isBlank c && e)
+    · simp [hb, ih1, atEol]
+    · simp [hb, ih1, ih2]
+
+/-- C17 (token-safe finalize, the fold): when no token text has a blank before a newline or at its end, the
+per-line strip of the whole output only ever removes blanks that belong to separators: the result is the
+same pieces with (some) separator blanks removed, every token text verbatim and in place. -/
+theorem stripSeps_spec (ps : List Piece) (h : ∀ p ∈ ps, p.isTok = true → tokClean p.text = true) :
+    flatten (stripSeps ps).1 = stripTrail (flatten ps) ∧ (stripSeps ps).2 = atEol (stripTrail (flatten ps)) := by
+  induction ps with
+  | nil => simp [stripSeps, flatten, stripTrail, stripTrailFrom, atEol]
+  | cons p ps ih =>
+    have ih := ih (fun q hq => h q (List.mem_cons_of_mem _ hq))
+    obtain ⟨ih1, ih2⟩ := ih
+    simp only [stripSeps]
+    generalize hq : stripSeps ps = q at ih1 ih2
+    obtain ⟨ps', e⟩ := q
+    simp only at ih1 ih2
+    have hf : flatten (p :: ps) = p.text ++ flatten ps := by simp [flatten]
+    rw [hf]
+    unfold stripTrail at ih1 ih2 ⊢
+    rw [stripTrailFrom_append]
+    cases hp : p.isTok
+    · -- a separator
+      simp only [Bool.false_eq_true, if_false]
+      have hs := stripSepFrom_spec (stripTrailFrom [] (flatten ps)) p.text
+      rw [← ih2] at hs
+      generalize hq2 : stripSepFrom e p.text = q2 at hs
+      obtain ⟨t, e'⟩ := q2
+      simp only at hs
+      constructor
+      · simp only [flatten, List.flatMap_cons] at ih1 ⊢
+        rw [ih1]; exact hs.1
+      · exact hs.2
+    · -- a token: copied
+      simp only [if_true]
+      have hc := h p (List.mem_cons_self ..) hp
+      rw [stripTrailFrom_clean _ _ hc]
+      constructor
+      · simp only [flatten, List.flatMap_cons] at ih1 ⊢
+        rw [ih1]
+      · cases ht : p.text with
+        | nil => simpa [atEol] using ih2
+        | cons c cs => simp [atEol]
+
+/-- the separator-only strip never touches a token piece -/
+theorem stripSeps_toks (ps : List Piece) : (stripSeps ps).1.filter (·.isTok) = ps.filter (·.isTok) := by
+  induction ps with
+  | nil => rfl
+  | cons p ps ih =>
+    simp only [stripSeps]
+    generalize stripSeps ps = q at ih
+    obtain ⟨ps', e⟩ := q
+    cases hp : p.isTok
+    · simp only [Bool.false_eq_true, if_false]
+      generalize stripSepFrom e p.text = q2
+      simp [List.filter_cons, hp] ; exact ih
+    · simp only [if_true]
+      simp [List.filter_cons, hp]; exact ih
+
+theorem C17_finalize_token_safe (ps : List Piece) (h : ∀ p ∈ ps, p.isTok = true → tokClean p.text = true) :
+    finalize (flatten ps) = finalizeSafe ps ∧ (stripSeps ps).1.filter (·.isTok) = ps.filter (·.isTok) := by
+  refine ⟨?_, stripSeps_toks ps⟩
+  unfold finalize finalizeSafe
+  rw [(stripSeps_spec ps h).1]
+
+/-- the hypothesis is needed — the known defect: a multi-line string literal with a line that ends in a
+blank.  Its text does not survive `_finalize`. -/
+def cexString : Str := "\"\"\"a \nb\"\"\"".toList
+
+theorem C17_finalize_token_safe_cex :
+    let ps := [tokP ['x'], sepP .eq [' '], tokP ['='], sepP .eq [' '], tokP cexString, sepP .newline ['\n']]
+    finalize (flatten ps) ≠ finalizeSafe ps ∧ finalizeSafe ps = flatten ps ∧ tokClean cexString = false := by
+  decide
+
+example : C17_finalize_token_safe [tokP ['x'], sepP .gapSome [' ', ' '], sepP .newline ['\n']] (by decide) =
+    C17_finalize_token_safe [tokP ['x'], sepP .gapSome [' ', ' '], sepP .newline ['\n']] (by decide) := rfl
+example : finalizeSafe [tokP ['x'], sepP .gapSome [' ', ' '], sepP .newline ['\n']] = ['x', '\n'] := by decide
+
+/-- `rstrip("\n")` removes final newlines and nothing else -/
+theorem rstripNl_spec (x : Str) : ∃ n, x = rstripNl x ++ List.replicate n '\n' := by
+  induction x with
+  | nil => exact ⟨0, rfl⟩
+  | cons c cs ih =>
+    obtain ⟨n, hn⟩ := ih
+    rw [rstripNl_cons]
+    cases hr : rstripNl cs with
+    | nil =>
+      rw [hr] at hn
+      by_cases hc : c = '\n'
+      · refine ⟨n + 1, ?_⟩
+        simp only [hc, if_true, List.nil_append, List.replicate_succ]
+        rw [hn]; simp
+      · refine ⟨n, ?_⟩
+        simp only [hc, if_false]
+        rw [hn]; simp
+    | cons d r =>
+      refine ⟨n, ?_⟩
+      simp only [List.cons_append]
+      rw [hr] at hn
+      rw [hn]; simp
+
+/-- C17: all that `_finalize` does beyond the per-line strip is to replace the run of final newlines by one. -/
+theorem C17_finalize_shape (s : Str) :
+    ∃ n, stripTrail s = rstripNl (stripTrail s) ++ List.replicate n '\n' ∧
+         finalize s = rstripNl (stripTrail s) ++ ['\n'] :=
+  let ⟨n, hn⟩ := rstripNl_spec (stripTrail s)
+  ⟨n, hn, rfl⟩
+
+/-! ## only whitespace changes -/
+
+theorem stripWs_append (a b : Str) : stripWs (a ++ b) = stripWs a ++ stripWs b := by
+  simp [stripWs]
+
+theorem stripWs_allWs {s : Str} (h : allWs s = true) : stripWs s = [] := by
+  simp only [stripWs, allWs, List.all_eq_true] at *
+  simp only [List.filter_eq_nil_iff]
+  intro c hc
+  simp [h c hc]
+
+/-- when the separators are whitespace, removing all whitespace from the emitted text leaves exactly the
+token texts, in order -/
+theorem stripWs_flatten (ps : List Piece) (h : ∀ p ∈ ps, p.isTok = false → allWs p.text = true) :
+    stripWs (flatten ps) = stripWs (toksOf ps) := by
+  induction ps with
+  | nil => rfl
+  | cons p ps ih =>
+    have ih := ih (fun q hq => h q (List.mem_cons_of_mem _ hq))
+    have hf : flatten (p :: ps) = p.text ++ flatten ps := by simp [flatten]
+    rw [hf, stripWs_append, ih]
+    cases hp : p.isTok
+    · have : toksOf (p :: ps) = toksOf ps := by simp [toksOf, List.filter_cons, hp]
+      rw [this, stripWs_allWs (h p (List.mem_cons_self ..) hp)]; rfl
+    · have : toksOf (p :: ps) = p.text ++ toksOf ps := by simp [toksOf, List.filter_cons, hp]
+      rw [this, stripWs_append]
+
+theorem isBlank_isPySpace {c : Char} (h : isBlank c = true) : isPySpace c = true := by
+  simp only [isBlank, Bool.or_eq_true, decide_eq_true_eq] at h
+  rcases h with rfl | rfl <;> decide
+
+theorem stripWs_stripTrailFrom (T s : Str) : stripWs (stripTrailFrom T s) = stripWs s ++ stripWs T := by
+  induction s with
+  | nil => simp [stripTrailFrom, stripWs]
+  | cons c cs ih =>
+    rw [stripTrailFrom_cons]
+    generalize (match stripTrailFrom T cs with | [] => true | d :: _ => decide (d = '\n')) = m
+    have e2 : stripWs (c :: cs) = stripWs [c] ++ stripWs cs := by
+      rw [← stripWs_append]; rfl
+    cases hb : (isBlank c && m)
+    · simp only [Bool.false_eq_true, if_false]
+      have e : stripWs (c :: stripTrailFrom T cs) = stripWs [c] ++ stripWs (stripTrailFrom T cs) := by
+        rw [← stripWs_append]; rfl
+      rw [e, ih, e2]; simp
+    · simp only [if_true]
+      simp only [Bool.and_eq_true] at hb
+      have hs := isBlank_isPySpace hb.1
+      have : stripWs [c] = [] := by simp [stripWs, hs]
+      rw [ih, e2, this]; simp
+
+theorem stripWs_rstripNl (x : Str) : stripWs (rstripNl x) = stripWs x := by
+  obtain ⟨n, hn⟩ := rstripNl_spec x
+  have : stripWs (List.replicate n '\n') = [] := by
+    apply stripWs_allWs
+    simp only [allWs, List.all_eq_true]
+    intro c hc
+    rw [List.eq_of_mem_replicate hc]; decide
+  conv => rhs; rw [hn, stripWs_append, this]
+  simp
+
+/-- `_finalize` changes whitespace only -/
+theorem C17_finalize_only_ws (s : Str) : stripWs (finalize s) = stripWs s := by
+  unfold finalize stripTrail
+  rw [stripWs_append, stripWs_rstripNl, stripWs_stripTrailFrom]
+  simp [stripWs]; decide
+
+/-! ## what the run loop appends -/
+
+/-- a separator that is whitespace unless it was copied from the source -/
+def SepOk (p : Piece) : Prop := p.isTok = false ∧ (p.fromSrc = false → allWs p.text = true)
+
+theorem allWs_append {a b : Str} (ha : allWs a = true) (hb : allWs b = true) : allWs (a ++ b) = true := by
+  simp only [allWs, List.all_append, Bool.and_eq_true] at *; exact ⟨ha, hb⟩
+
+theorem allWs_flatten_replicate (s : Str) (n : Nat) (h : allWs s = true) : allWs (List.replicate n s).flatten = true := by
+  induction n with
+  | zero => rfl
+  | succ k ih => rw [List.replicate_succ, List.flatten_cons]; exact allWs_append h ih
+
+theorem allWs_repeatStr (s : Str) (n : Int) (h : allWs s = true) : allWs (repeatStr s n) = true :=
+  allWs_flatten_replicate s _ h
+
+theorem allWs_spaces (n : Int) : allWs (spaces n) = true := by
+  simp only [spaces, allWs, List.all_eq_true]
+  intro c hc
+  rw [List.eq_of_mem_replicate hc]; decide
+
+theorem sepP_ok (r : Rule) (t : Str) (h : allWs t = true) : SepOk (sepP r t) := ⟨rfl, fun _ => h⟩
+theorem srcP_ok (r : Rule) (t : Str) : SepOk (srcP r t) := ⟨rfl, fun h => by simp [srcP] at h⟩
+
+theorem forced_ok (cfg : Cfg) (st : St) (pk : Kind) (ps : Str) (ck : Kind) (cs : Str) (p : Piece)
+    (h : forced cfg st pk ps ck cs = some p) : SepOk p := by
+  unfold forced at h
+  repeat' split at h
+  all_goals first
+    | (cases h; apply sepP_ok; decide)
+    | (simp at h)
+
+theorem gapOf_ok (a b : Tok) : SepOk (gapOf a b) := by
+  unfold gapOf
+  repeat' split
+  all_goals (apply sepP_ok; decide)
+
+theorem spaceLate_ok (cfg : Cfg) (st : St) (a b : Tok) : SepOk (spaceLate cfg st a b) := by
+  unfold spaceLate
+  split
+  · rename_i p hp; exact forced_ok _ _ _ _ _ _ _ hp
+  · exact gapOf_ok _ _
+
+theorem spaceBetween_ok (cfg : Cfg) (st : St) (a b : Tok) (hind : allWs cfg.indent = true) :
+    SepOk (spaceBetween cfg st a b) := by
+  unfold spaceBetween spaceRest
+  repeat' split
+  all_goals first
+    | (apply sepP_ok; decide)
+    | (apply sepP_ok; exact allWs_repeatStr _ _ hind)
+    | (apply sepP_ok; exact allWs_spaces _)
+    | (apply srcP_ok)
+    | (exact spaceLate_ok _ _ _ _)
+
+theorem blanksFor_ok (n : Nat) (l : Int) : ∀ p ∈ blanksFor n l, SepOk p := by
+  intro p hp
+  rw [blanksFor, List.mem_replicate] at hp
+  rw [hp.2]; apply sepP_ok; decide
+
+theorem leadOf_ok (cfg : Cfg) (st : St) (t : Tok) (rest : List Tok) (hind : allWs cfg.indent = true) :
+    ∀ p ∈ (leadOf cfg st t rest).pieces, SepOk p := by
+  intro p hp
+  unfold leadOf at hp
+  repeat' split at hp
+  all_goals simp only [List.mem_append, List.mem_singleton, List.mem_cons, List.not_mem_nil, or_false] at hp
+  all_goals first
+    | (rcases hp with hp | rfl
+       · exact blanksFor_ok _ _ p hp
+       · first
+          | apply srcP_ok
+          | (apply sepP_ok; exact allWs_repeatStr _ _ hind))
+    | (subst hp; apply sepP_ok; decide)
+    | (subst hp; exact spaceBetween_ok _ _ _ _ hind)
+
+/-- the kinds `_Formatter.run` re-emits as text (everything except the structural tokens) -/
+def isReal (k : Kind) : Bool :=
+  !(k = .encoding || k = .endmarker || k = .indent || k = .dedent || k = .newline || k = .nl)
+
+/-- one iteration of the run loop: at most one token piece (the rendered token, iff the loop has not
+stopped and the token is a real one), preceded by separators -/
+theorem step_out (cfg : Cfg) (st : St) (t : Tok) (rest : List Tok) (hind : allWs cfg.indent = true) :
+    ∃ lead : List Piece, (∀ p ∈ lead, SepOk p) ∧
+      (step cfg st t rest).out =
+        (if !st.done && isReal t.kind then [tokP (renderToken cfg t)] else []) ++ lead ++ st.out ∧
+      (step cfg st t rest).done = (st.done || decide (t.kind = .endmarker)) := by
+  unfold step
+  by_cases hd : st.done = true
+  · exact ⟨[], by simp, by simp [hd], by simp [hd]⟩
+  · have hd' : st.done = false := by simpa using hd
+    simp only [hd, if_false]
+    cases hk : t.kind
+    case nl =>
+      by_cases hl : st.lineStart = true
+      · exact ⟨[], by simp, by simp [hd', hl, isReal], by simp [hd', hl]⟩
+      · refine ⟨[sepP .nlCont ['\n']], ?_, by simp [hd', hl, isReal], by simp [hd', hl]⟩
+        intro p hp; rw [List.mem_singleton.mp hp]; apply sepP_ok; decide
+    case newline =>
+      refine ⟨[sepP .newline ['\n']], ?_, by simp [hd', isReal], by simp [hd']⟩
+      intro p hp; rw [List.mem_singleton.mp hp]; apply sepP_ok; decide
+    case encoding => exact ⟨[], by simp, by simp [hd', isReal], by simp [hd']⟩
+    case endmarker => exact ⟨[], by simp, by simp [hd', isReal], by simp [hd']⟩
+    case indent => exact ⟨[], by simp, by simp [hd', isReal], by simp [hd']⟩
+    case dedent => exact ⟨[], by simp, by simp [hd', isReal], by simp [hd']⟩
+    all_goals
+      refine ⟨(leadOf cfg st t rest).pieces.reverse, ?_, by simp [hd', isReal, stepReal, hk], by simp [hd', stepReal]⟩
+      intro p hp
+      exact leadOf_ok cfg st t rest hind p (List.mem_reverse.mp hp)
+
+/-- the tokens the run loop re-emits: the real ones before the first ENDMARKER -/
+def realToks : Bool → List Tok → List Tok
+  | _, [] => []
+  | done, t :: ts =>
+    if done then []
+    else (if isReal t.kind then [t] else []) ++ realToks (decide (t.kind = .endmarker)) ts
+
+theorem realToks_done (l : List Tok) : realToks true l = [] := by cases l <;> simp [realToks]
+
+theorem toksOf_append (a b : List Piece) : toksOf (a ++ b) = toksOf a ++ toksOf b := by
+  simp [toksOf, List.filter_append]
+
+theorem toksOf_seps (l : List Piece) (h : ∀ p ∈ l, p.isTok = false) : toksOf l = [] := by
+  induction l with
+  | nil => rfl
+  | cons p ps ih =>
+    have hp := h p (List.mem_cons_self ..)
+    have := ih (fun q hq => h q (List.mem_cons_of_mem _ hq))
+    simp only [toksOf, List.filter_cons, hp] at this ⊢
+    simpa using this
+
+theorem runFrom_spec (cfg : Cfg) (hind : allWs cfg.indent = true) (toks : List Tok) :
+    ∀ st : St, ∃ mid : List Piece,
+      (runFrom cfg st toks).out = mid ++ st.out ∧
+      (∀ p ∈ mid, p.isTok = false → SepOk p) ∧
+      toksOf mid.reverse = (realToks st.done toks).flatMap (renderToken cfg) := by
+  induction toks with
+  | nil => intro st; exact ⟨[], by simp [runFrom], by simp, by simp [realToks, toksOf]⟩
+  | cons t rest ih =>
+    intro st
+    obtain ⟨lead, hlead, hout, hdone⟩ := step_out cfg st t rest hind
+    obtain ⟨mid', hm1, hm2, hm3⟩ := ih (step cfg st t rest)
+    refine ⟨mid' ++ ((if !st.done && isReal t.kind then [tokP (renderToken cfg t)] else []) ++ lead), ?_, ?_, ?_⟩
+    · simp only [runFrom]; rw [hm1, hout]; simp
+    · intro p hp hnt
+      rcases List.mem_append.mp hp with h | h
+      · exact hm2 p h hnt
+      · rcases List.mem_append.mp h with h | h
+        · split at h
+          · rw [List.mem_singleton.mp h] at hnt; simp [tokP] at hnt
+          · simp at h
+        · exact hlead p h
+    · rw [List.reverse_append, toksOf_append, hm3, hdone, List.reverse_append, toksOf_append,
+        toksOf_seps lead.reverse (fun p hp => (hlead p (List.mem_reverse.mp hp)).1)]
+      by_cases hd : st.done = true
+      · simp [hd, realToks_done, realToks, toksOf]
+      · have hd' : st.done = false := by simpa using hd
+        simp only [hd', Bool.false_or, Bool.not_false, Bool.true_and, realToks, Bool.false_eq_true, if_false]
+        by_cases hr : isReal t.kind = true
+        · simp [hr, toksOf, tokP]
+        · have hr' : isReal t.kind = false := by simpa using hr
+          simp [hr', toksOf]
+
+/-- C17: every real token is emitted exactly once, in order, as its rendered text, and nothing else is
+emitted except separators. -/
+theorem C17_tokens_emitted (cfg : Cfg) (hind : allWs cfg.indent = true) (toks : List Tok) :
+    toksOf (pieces cfg toks) = (realToks false toks).flatMap (renderToken cfg) := by
+  obtain ⟨mid, h1, _, h3⟩ := runFrom_spec cfg hind toks {}
+  have : (runFrom cfg {} toks).out = mid := by simpa using h1
+  simp only [pieces, this]; exact h3
+
+/-- C17: every separator the run loop produces is whitespace, except possibly those copied from the
+source (line prefixes inside brackets, raw gaps of macro bodies). -/
+theorem C17_seps_are_ws (cfg : Cfg) (hind : allWs cfg.indent = true) (toks : List Tok) :
+    ∀ p ∈ pieces cfg toks, p.isTok = false → p.fromSrc = false → allWs p.text = true := by
+  obtain ⟨mid, h1, h2, _⟩ := runFrom_spec cfg hind toks {}
+  have : (runFrom cfg {} toks).out = mid := by simpa using h1
+  intro p hp hnt hns
+  simp only [pieces, this, List.mem_reverse] at hp
+  exact (h2 p hp hnt).2 hns
+
+/-- C17 (only whitespace changes): provided the separators copied from the source are whitespace (the
+tokenizer's positions are coherent — checked on every real token stream by the harness), the formatted
+text with all whitespace removed is the concatenation of the rendered token texts with all whitespace
+removed: no other character is added, dropped or moved. -/
+theorem C17_only_ws_changes (cfg : Cfg) (hind : allWs cfg.indent = true) (toks : List Tok)
+    (hsrc : srcSepsWs (pieces cfg toks) = true) :
+    stripWs (format cfg toks) = stripWs ((realToks false toks).flatMap (renderToken cfg)) := by
+  unfold format
+  rw [C17_finalize_only_ws, ← C17_tokens_emitted cfg hind]
+  apply stripWs_flatten
+  intro p hp hnt
+  cases hs : p.fromSrc
+  · exact C17_seps_are_ws cfg hind toks p hp hnt hs
+  · simp only [srcSepsWs, List.all_eq_true] at hsrc
+    have := hsrc p hp
+    simpa [hs] using this
+
+/-- a comment's rendering differs from its text by leading whitespace only; every other token except
+f-string literal parts is rendered as its text -/
+theorem render_comment_ws (cfg : Cfg) (t : Tok) (h : t.kind = .comment) :
+    stripWs (renderToken cfg t) = stripWs t.text := by
+  simp only [renderToken, h, if_true, lstrip]
+  induction t.text with
+  | nil => rfl
+  | cons c cs ih =>
+    simp only [List.dropWhile_cons]
+    split
+    · rename_i hc; rw [ih]; simp [stripWs, List.filter_cons, hc]
+    · rfl
+
+theorem render_plain (cfg : Cfg) (t : Tok) (h1 : t.kind ≠ .comment) (h2 : t.kind ≠ .fmiddle) :
+    renderToken cfg t = t.text := by
+  simp [renderToken, h1, h2]
+
+/-! ## two tokens that would merge always get a separator -/
+
+def genTables : Tables :=
+  ⟨Gen.FormatTables.openers, Gen.FormatTables.closers, Gen.FormatTables.alwaysSpaced, Gen.FormatTables.pyKeywords,
+   Gen.FormatTables.lineStartPy, Gen.FormatTables.pyAfterLeadingName, Gen.FormatTables.pyInfix⟩
+
+abbrev tokOps : List Str := Gen.FormatTables.tokenizerOps
+
+/-- inside an f-string replacement field two equal braces in a row read as an escaped brace -/
+def braceClash (a b : Str) : Bool :=
+  match a.getLast?, b.head? with
+  | some x, some y => (x = '{' || x = '}') && x = y
+  | _, _ => false
+
+/-- nothing can be appended to `a` that changes how it reads (apart from a comment start and the f-string
+brace escape): its last character is punctuation that starts no longer token, and no operator of the
+tokenizer's tables properly extends it -/
+def leftInert (ops : List Str) (a : Str) : Bool :=
+  (match a.getLast? with
+   | some x => !isWordChar x && x != '$' && x != '@' && !x.isDigit && x != '.' && x != '\'' && x != '"'
+   | none => true) &&
+  ops.all (fun op => !(a.isPrefixOf op) || (op.drop a.length).isEmpty)
+
+/-- nothing can precede a text starting with `y` that it would merge with (same exceptions) -/
+def rightInert (ops : List Str) (y : Char) : Bool :=
+  !isWordChar y && !isQuoteLike y && y != '.' && !y.isDigit && y != '#' &&
+  ops.all (fun op => !op.tail.contains y)
+
+theorem extendsWith_false_of_leftInert {ops : List Str} {a : Str}
+    (h : ops.all (fun op => !(a.isPrefixOf op) || (op.drop a.length).isEmpty) = true) (y : Char) :
+    ops.any (extendsWith a y) = false := by
+  rw [List.any_eq_false]
+  intro op hop
+  have := (List.all_eq_true.mp h) op hop
+  simp only [Bool.or_eq_true, Bool.not_eq_true', List.isEmpty_iff] at this
+  simp only [extendsWith, Bool.and_eq_true, not_and]
+  intro hp
+  rcases this with h1 | h1
+  · simp [hp] at h1
+  · simp [h1]
+
+theorem merges_false_of_leftInert (ops : List Str) (a b : Str) (h : leftInert ops a = true)
+    (hc : b.head? ≠ some '#') (hb : braceClash a b = false) : merges ops a b = false := by
+  unfold merges
+  unfold braceClash at hb
+  unfold leftInert at h
+  cases ha : a.getLast? with
+  | none => rfl
+  | some x =>
+    cases hy : b.head? with
+    | none => rfl
+    | some y =>
+      rw [ha] at h hb; rw [hy] at hb hc
+      simp only [Bool.and_eq_true] at h
+      obtain ⟨hx, hops⟩ := h
+      have he := extendsWith_false_of_leftInert hops y
+      simp only [Bool.and_eq_true, Bool.not_eq_true', bne_iff_ne, ne_eq] at hx
+      obtain ⟨⟨⟨⟨⟨⟨h1, h2⟩, h3⟩, h4⟩, h5⟩, h6⟩, h7⟩ := hx
+      have hy' : y ≠ '#' := fun e => hc (by rw [e])
+      simp only [he, h1, h4, h2, h3, h5, h6, h7, hy', Bool.false_and, Bool.false_or, decide_false, Bool.or_false,
+        Bool.and_false]
+      simpa using hb
+
+theorem mem_tail_of_drop_head {op : Str} {n : Nat} {y : Char} (hn : 0 < n) (h : (op.drop n).head? = some y) :
+    y ∈ op.tail := by
+  have : y ∈ op.drop n := List.mem_of_mem_head? h
+  cases op with
+  | nil => simp at this
+  | cons c cs =>
+    simp only [List.tail_cons]
+    obtain ⟨k, rfl⟩ : ∃ k, n = k + 1 := ⟨n - 1, by omega⟩
+    simp only [List.drop_succ_cons] at this
+    exact List.mem_of_mem_drop this
+
+theorem merges_false_of_rightInert (ops : List Str) (a b : Str) (y : Char) (hy : b.head? = some y)
+    (h : rightInert ops y = true) (hb : braceClash a b = false) : merges ops a b = false := by
+  unfold merges
+  unfold braceClash at hb
+  unfold rightInert at h
+  cases ha : a.getLast? with
+  | none => rfl
+  | some x =>
+    rw [hy]
+    rw [ha, hy] at hb
+    simp only [Bool.and_eq_true, Bool.not_eq_true', bne_iff_ne, ne_eq] at h
+    obtain ⟨⟨⟨⟨⟨h1, h2⟩, h3⟩, h4⟩, h5⟩, hops⟩ := h
+    have hne : a ≠ [] := by intro e; rw [e] at ha; simp at ha
+    have he : ops.any (extendsWith a y) = false := by
+      rw [List.any_eq_false]
+      intro op hop
+      have := (List.all_eq_true.mp hops) op hop
+      simp only [Bool.not_eq_true', List.contains_eq_mem, decide_eq_false_iff_not] at this
+      simp only [extendsWith, Bool.and_eq_true, not_and]
+      intro _ hd
+      have hpos : 0 < a.length := List.length_pos_iff.mpr hne
+      exact this (mem_tail_of_drop_head hpos (by simpa using hd))
+    have hq : ¬ ((x = '\'' ∨ x = '"') ∧ x = y) := by
+      rintro ⟨hx, rfl⟩
+      simp only [isQuoteLike, Bool.or_eq_false_iff, decide_eq_false_iff_not] at h2
+      rcases hx with rfl | rfl
+      · exact h2.1.1 rfl
+      · exact h2.1.2 rfl
+    have hbq : y ≠ '`' := by
+      intro e; simp [isQuoteLike, e] at h2
+    simp only [he, h1, h2, h3, h4, h5, hbq, Bool.or_false, Bool.and_false, Bool.false_or, decide_false]
+    simp only [Bool.or_eq_false_iff, Bool.and_eq_false_iff, decide_eq_false_iff_not]
+    constructor
+    · by_cases e : x = y
+      · left; subst e; exact ⟨fun h => hq ⟨Or.inl h, rfl⟩, fun h => hq ⟨Or.inr h, rfl⟩⟩
+      · right; exact e
+    · by_cases e : x = y
+      · left; subst e
+        simp only [Bool.and_eq_false_iff, Bool.or_eq_false_iff, decide_eq_false_iff_not, decide_true, Bool.true_eq_false,
+          or_false] at hb
+        simpa using hb
+      · right; exact e
+
+/-- the complete tables: every opener is left-inert, every closer / comma / semicolon / colon is right-inert -/
+theorem openers_leftInert : Gen.FormatTables.openers.all (leftInert tokOps) = true := by decide
+theorem closers_rightInert :
+    Gen.FormatTables.closers.all (fun c => match c.head? with | some y => rightInert tokOps y | none => false) = true := by
+  decide
+theorem punct_rightInert : rightInert tokOps ',' = true ∧ rightInert tokOps ';' = true ∧ rightInert tokOps ':' = true := by
+  decide
+
+/-! ### which rule produced a glued pair -/
+
+theorem forced_rule_cases {cfg : Cfg} {st : St} {pk ck : Kind} {ps cs : Str} {p : Piece}
+    (h : forced cfg st pk ps ck cs = some p) :
+    (p.rule = .opener → cfg.tb.openers.contains ps = true) ∧
+    (p.rule = .closer → cfg.tb.closers.contains cs = true) ∧
+    (p.rule = .commaB → cs = [','] ∨ cs = [';']) ∧
+    (p.rule = .colonB → cs = [':']) ∧
+    (p.rule = .colonSlice → ps = [':'] ∧ st.brackets.head? = some ['[']) := by
+  unfold forced at h
+  repeat' split at h
+  all_goals first
+    | (cases h; simp only [sepP]; refine ⟨?_, ?_, ?_, ?_, ?_⟩ <;> intro hr <;> first | assumption | (cases hr; done) | (simp_all; done))
+    | (simp at h)
+
+theorem gapOf_rule (a b : Tok) :
+    (gapOf a b).rule = .gapLines ∨ (gapOf a b).rule = .gapSome ∨ (gapOf a b).rule = .gapNone := by
+  unfold gapOf; repeat' split
+  all_goals simp [sepP]
+
+/-- the separator of a pair is produced by one of the four "glue" rules only under that rule's own test -/
+theorem glue_rule_cases (cfg : Cfg) (st : St) (a b : Tok) :
+    let p := spaceBetween cfg st a b
+    (p.rule = .opener → cfg.tb.openers.contains a.text = true) ∧
+    (p.rule = .closer → cfg.tb.closers.contains b.text = true) ∧
+    (p.rule = .commaB → b.text = [','] ∨ b.text = [';']) ∧
+    (p.rule = .colonB → b.text = [':']) ∧
+    (p.rule = .colonSlice → a.text = [':'] ∧ st.brackets.head? = some ['[']) := by
+  intro p
+  have key : p.rule = .fstr ∨ p.rule = .bang ∨ p.rule = .rawCont ∨ p.rule = .raw ∨ p.rule = .contSub ∨ p.rule = .contPy ∨
+      p = spaceLate cfg st a b := by
+    simp only [p]
+    unfold spaceBetween spaceRest
+    repeat' split
+    all_goals simp [sepP, srcP]
+  rcases key with h | h | h | h | h | h | h
+  all_goals try (rw [h]; simp; done)
+  rw [h]
+  unfold spaceLate
+  split
+  · rename_i q hq; exact forced_rule_cases hq
+  · have := gapOf_rule a b
+    refine ⟨?_, ?_, ?_, ?_, ?_⟩ <;> intro hr <;> rw [hr] at this <;> simp at this
+
+theorem mem_of_contains {l : List Str} {s : Str} (h : l.contains s = true) : s ∈ l := by
+  simpa using h
+
+/-- C17 (no merge): with the rule tables and the tokenizer's operator tables as translated from the source,
+whenever `_space_between` GLUES two tokens by one of its forced rules (after an opener, before a closer,
+before `,` `;` `:`), writing the second directly after the first cannot change how the text tokenises —
+for ALL token texts and ALL lexical contexts — with exactly two exceptions, which are real:
+a comment start (`#`, which the comment rule handles when the tokenizer reports a COMMENT) and the f-string
+brace escape (`{` `{`, `}` `}`; see `C17_no_merge_cex_braces`).  Every other rule either inserts a blank
+or (the default) keeps the source's own gap, under which the two tokens already were adjacent tokens. -/
+theorem C17_no_merge (cfg : Cfg) (htb : cfg.tb = genTables) (st : St) (a b : Tok)
+    (hr : (spaceBetween cfg st a b).rule = .opener ∨ (spaceBetween cfg st a b).rule = .closer ∨
+          (spaceBetween cfg st a b).rule = .commaB ∨ (spaceBetween cfg st a b).rule = .colonB)
+    (hc : b.text.head? ≠ some '#') (hb : braceClash a.text b.text = false) :
+    merges tokOps a.text b.text = false := by
+  obtain ⟨h1, h2, h3, h4, _⟩ := glue_rule_cases cfg st a b
+  rcases hr with hr | hr | hr | hr
+  · have hm := mem_of_contains (h1 hr)
+    rw [htb] at hm
+    exact merges_false_of_leftInert _ _ _ ((List.all_eq_true.mp openers_leftInert) _ hm) hc hb
+  · have hm := mem_of_contains (h2 hr)
+    rw [htb] at hm
+    have := (List.all_eq_true.mp closers_rightInert) _ hm
+    cases hy : b.text.head? with
+    | none => rw [hy] at this; simp at this
+    | some y => rw [hy] at this; exact merges_false_of_rightInert _ _ _ y hy this hb
+  · rcases h3 hr with e | e
+    · exact merges_false_of_rightInert _ _ _ ',' (by rw [e]; rfl) punct_rightInert.1 hb
+    · exact merges_false_of_rightInert _ _ _ ';' (by rw [e]; rfl) punct_rightInert.2.1 hb
+  · exact merges_false_of_rightInert _ _ _ ':' (by rw [h4 hr]; rfl) punct_rightInert.2.2 hb
+
+def opTok (s : Str) : Tok := ⟨.op, s, 1, 0, 1, 0⟩
+def genCfg : Cfg := ⟨genTables, Gen.FormatTables.defaultIndent, []⟩
+
+/-- the brace exception is real: `{ {` (and `} }`) written with a gap are glued by the opener / closer rule
+into `{{` / `}}`, which inside an f-string field is an escaped brace (known finding
+`fstring-nested-braces-glued`: `f"{ {1: 2}[1] }"`). -/
+theorem C17_no_merge_cex_braces :
+    (spaceBetween genCfg {} (opTok ['{']) (opTok ['{'])).text = [] ∧ merges tokOps ['{'] ['{'] = true ∧
+    (spaceBetween genCfg {} (opTok ['}']) (opTok ['}'])).text = [] ∧ merges tokOps ['}'] ['}'] = true := by
+  decide
+
+/-- the fifth glue rule — nothing after a `:` inside `[ ]` — is NOT merge-safe: `:` `=` become `:=`. -/
+theorem C17_no_merge_cex_slice :
+    (spaceBetween genCfg { brackets := [['[']] } (opTok [':']) (opTok ['='])).rule = .colonSlice ∧
+    (spaceBetween genCfg { brackets := [['[']] } (opTok [':']) (opTok ['='])).text = [] ∧
+    merges tokOps [':'] ['='] = true := by
+  decide
+
+-- non-vacuity: the glue rules fire, and the tokens glued do not merge
+example : (spaceBetween genCfg {} (opTok ['(']) ⟨.name, ['x'], 1, 3, 1, 4⟩).rule = .opener := by decide
+example : merges tokOps ['('] ['x'] = false ∧ merges tokOps ['x'] [')'] = false ∧ merges tokOps ['x'] [','] = false := by decide
+-- the relation is not trivially false: these pairs would merge, and none of them is ever glued by a forced rule
+example : merges tokOps ['<'] ['='] = true ∧ merges tokOps ['a'] ['b'] = true ∧ merges tokOps ['1'] ['.'] = true ∧
+    merges tokOps ['$'] ['('] = true ∧ merges tokOps ['2'] ['>'] = true ∧ merges tokOps ['f'] ['"', '"'] = true ∧
+    merges tokOps ['*'] ['*', '='] = true ∧ merges tokOps ['\'', '\''] ['\'', 'x', '\''] = true := by decide
+
+/-! ## the spacing rules are stable under re-emission -/
+
+/-- C17 (idempotence of the spacing rules): outside macro bodies and continuation lines, the separator
+`_space_between` chooses for two tokens depends on their kinds and texts, on the lexical context, and on
+the source only through "was there a gap?".  So when the same two tokens are laid out as the formatter
+emitted them (same line, exactly the chosen separator between them), it chooses the same separator again. -/
+theorem C17_space_stable (cfg : Cfg) (st : St) (a b a' b' : Tok)
+    (ha : a'.kind = a.kind ∧ a'.text = a.text) (hb : b'.kind = b.kind ∧ b'.text = b.text)
+    (hm : (st.macroUntilDepth > 0 || st.macroAliasLine) = false) (hc : isContTok a = false)
+    (hl : a'.el = b'.sl ∧ b'.sc = a'.ec + (spaceBetween cfg st a b).text.length) :
+    (spaceBetween cfg st a' b').text = (spaceBetween cfg st a b).text := by
+  have hca : isContTok a' = false := by simpa [isContTok, ha.1, ha.2] using hc
+  have hbang : isBang b' = isBang b := by simp [isBang, hb.1, hb.2]
+  -- the late part: forced rules are position-blind, the default looks at the gap only
+  have late : ∀ (L : Nat), b'.sc = a'.ec + L → L = (spaceLate cfg st a b).text.length →
+      (spaceLate cfg st a' b').text = (spaceLate cfg st a b).text := by
+    intro L h1 h2
+    unfold spaceLate at h2 ⊢
+    rw [ha.1, ha.2, hb.1, hb.2]
+    cases hf : forced cfg st a.kind a.text b.kind b.text with
+    | some p => rfl
+    | none =>
+      rw [hf] at h2
+      simp only at h2 ⊢
+      unfold gapOf at h2 ⊢
+      have hl1 : ¬ (a'.el ≠ b'.sl) := by simp [hl.1]
+      rw [if_neg hl1]
+      by_cases g1 : a.el ≠ b.sl
+      · rw [if_pos g1] at h2 ⊢
+        have h3 : L = 1 := by simpa [sepP] using h2
+        have : b'.sc > a'.ec := by omega
+        rw [if_pos this]; rfl
+      · rw [if_neg g1] at h2 ⊢
+        by_cases g2 : b.sc > a.ec
+        · rw [if_pos g2] at h2 ⊢
+          have h3 : L = 1 := by simpa [sepP] using h2
+          have : b'.sc > a'.ec := by omega
+          rw [if_pos this]
+        · rw [if_neg g2] at h2 ⊢
+          have h3 : L = 0 := by simpa [sepP] using h2
+          have : ¬ b'.sc > a'.ec := by omega
+          rw [if_neg this]
+  have rest : ∀ (L : Nat), b'.sc = a'.ec + L → L = (spaceRest cfg st a b).text.length →
+      (spaceRest cfg st a' b').text = (spaceRest cfg st a b).text := by
+    intro L h1 h2
+    unfold spaceRest at h2 ⊢
+    simp only [hm, hc, hca, Bool.false_eq_true, if_false] at h2 ⊢
+    exact late L h1 h2
+  unfold spaceBetween at hl ⊢
+  rw [ha.1, hb.1, hbang]
+  by_cases c1 : (b.kind = .fmiddle || b.kind = .fend) = true
+  · simp [c1]
+  · by_cases c2 : (a.kind = .fstart || a.kind = .fmiddle) = true
+    · simp [c1, c2]
+    · simp only [c1, c2, Bool.false_eq_true, if_false] at hl ⊢
+      by_cases c3 : (isBang b && startsAtEndOf b a) = true
+      · -- glued bang: the emitted layout is adjacent again
+        simp only [c3, if_true, sepP, List.length_nil, Nat.add_zero] at hl ⊢
+        have : (isBang b && startsAtEndOf b' a') = true := by
+          simp only [Bool.and_eq_true] at c3 ⊢
+          exact ⟨c3.1, by simp [startsAtEndOf, hl.1, hl.2]⟩
+        simp [this]
+      · simp only [c3, Bool.false_eq_true, if_false] at hl ⊢
+        by_cases c4 : (isBang b && startsAtEndOf b' a') = true
+        · -- a bang that now touches its predecessor: then the separator chosen before was empty
+          simp only [c4, if_true, sepP]
+          simp only [Bool.and_eq_true, startsAtEndOf, decide_eq_true_eq] at c4
+          have : (spaceRest cfg st a b).text.length = 0 := by have := hl.2; omega
+          exact (List.eq_nil_of_length_eq_zero this).symm
+        · simp only [c4, Bool.false_eq_true, if_false]
+          exact rest _ hl.2 rfl
+
+example : (spaceBetween genCfg {} ⟨.name, ['x'], 1, 0, 1, 1⟩ (opTok ['='])).text = [' '] := by decide
+
+/-- after a backslash-newline in a Python statement the visual offset is rescaled from the source's indent
+width to the formatter's; once the source IS formatter output (indent width = the formatter's, offset as
+emitted) the rescaling is the identity -/
+theorem C17_continuation_stable (v L : Nat) (hL : 0 < L) : roundDiv (v * L) L = v := by
+  unfold roundDiv
+  have h1 : v * L / L = v := Nat.mul_div_cancel v hL
+  have h2 : v * L % L = 0 := Nat.mul_mod_left v L
+  simp only [Nat.ne_of_gt hL, if_false, h1, h2]
+  simp [hL]
+
+example : roundDiv (3 * 4) 2 = 6 ∧ roundDiv (3 * 4) 8 = 2 ∧ roundDiv (1 * 4) 8 = 0 ∧ roundDiv (3 * 4) 8 = 2 := by decide
+
+
+/-! ## the model computes (non-vacuity of the run-loop theorems) -/
+
+def exToks : List Tok :=
+  [⟨.encoding, [], 0, 0, 0, 0⟩, ⟨.name, ['x'], 1, 0, 1, 1⟩, ⟨.op, ['='], 1, 1, 1, 2⟩, ⟨.op, ['('], 1, 2, 1, 3⟩,
+   ⟨.number, ['1'], 1, 4, 1, 5⟩, ⟨.op, [','], 1, 6, 1, 7⟩, ⟨.number, ['2'], 1, 7, 1, 8⟩, ⟨.op, [')'], 1, 9, 1, 10⟩,
+   ⟨.newline, ['\n'], 1, 10, 1, 11⟩, ⟨.endmarker, [], 2, 0, 2, 0⟩, ⟨.name, ['z'], 3, 0, 3, 1⟩]
+
+def exCfg : Cfg := ⟨genTables, Gen.FormatTables.defaultIndent, splitNl "x=( 1 ,2 )\n".toList⟩
+
+/-- `x=( 1 ,2 )` is formatted to `x = (1, 2)`; the token after ENDMARKER is not emitted -/
+example : format exCfg exToks = "x = (1, 2)\n".toList := by decide
+example : srcSepsWs (pieces exCfg exToks) = true ∧ allWs exCfg.indent = true := by decide
+example : (realToks false exToks).flatMap (renderToken exCfg) = "x=(1,2)".toList := by decide
+
+end Format
